@@ -519,6 +519,12 @@ def mon_C03(md_lib, cfg, ops, impl, stats, r=None):
         op = ops[k] if k < len(ops) else None
         if any(l == "ESC" or l.startswith("EC ") for l in block):
             return out       # exceptions: the ledger part of the property does not apply
+        if op and op[0] == "reset":
+            ledger = collections.Counter()     # a fresh object
+            started = False
+            continue
+        if op and op[0] == "start" and started and not cfg.startswith("mp11"):
+            return out       # back / back11 run start() of a started machine again: outside the ledger's histories
         for l in block:
             p = parse(l)
             if not p:
